@@ -311,5 +311,27 @@ func Finish(t *testing.T, r *Rec) {
 
 // Violation formats the single line the driver looks for. The test must still fail.
 func Violation(id, sig, msg string) string {
-	return fmt.Sprintf("VERIF-VIOLATION property=%s sig=%s :: %s", id, sig, msg)
+	line := fmt.Sprintf("VERIF-VIOLATION property=%s sig=%s :: %s", id, sig, msg)
+	// Report the first failures at once (before shrinking): if minimisation later runs into the
+	// test timeout the driver still sees that a violation was found, and has the case.
+	violMu.Lock()
+	violN++
+	n := violN
+	violMu.Unlock()
+	if n <= 2 {
+		short := line
+		if len(short) > 4000 {
+			short = short[:4000] + "...(truncated)"
+		}
+		fmt.Fprintf(os.Stderr, "EARLY %s\n", short)
+		if dir := os.Getenv("VERIF_REPLAY_OUT"); dir != "" {
+			_ = os.WriteFile(filepath.Join(dir, fmt.Sprintf("early-violation-%d.txt", n)), []byte(line+"\n"), 0o644)
+		}
+	}
+	return line
 }
+
+var (
+	violMu sync.Mutex
+	violN  int
+)
